@@ -38,6 +38,8 @@ TRUSTED = ["Model/XrLabel.v mirrors trace_dependencies/_trace_dependencies/mapsp
            "harness/mapsym.py structural functions and array canonicalisation; harness/mapgen.py request generator"]
 
 ZSEL = "C19-zipped-coordinate-not-selectable"
+CONFLICT = "C19-axis-name-reused-with-different-sizes"
+PLAIN = "C19-unmapped-array-output-not-storable"
 
 
 # ------------------------------------------------------------------ Coq literal
@@ -200,6 +202,18 @@ def corner_requests():
     # scalar inputs, defaults, an output that nothing consumes, a single element axis
     R.append({"funcs": [_fn("f", ["y"], [["x", ["i"]]], ["i"], extra=["c"]), _single("t", ["s"], ["c"])],
               "inputs": [_arr("x", [1], "list"), ["c", "C"]]})
+    # an index name shared by two independent sub-pipelines: equal sizes (fine) and different sizes (known finding)
+    R.append({"funcs": [_fn("f", ["y"], [["x", ["i"]]], ["i"]), _fn("g", ["w"], [["u", ["i"]]], ["i"])],
+              "inputs": [_arr("x", [2]), _arr("u", [2], "list")]})
+    R.append({"funcs": [_fn("f", ["y"], [["x", ["i"]]], ["i"]), _fn("g", ["w"], [["u", ["i"]]], ["i"])],
+              "inputs": [_arr("x", [3]), _arr("u", [2], "list")]})
+    R.append({"funcs": [_fn("f", ["y"], [["x", ["i"]]], ["i"]), _gen("g", ["v"], ["i"], [2])],
+              "inputs": [_arr("x", [3], "list")]})
+    # functions without MapSpec that return ndarrays of rank 1 and 2
+    R.append({"funcs": [_fn("f", ["y"], [["x", ["i"]]], ["i"]), dict(_single("g", ["s"], ["y"]), ret=[3])],
+              "inputs": [_arr("x", [2], "list")]})
+    R.append({"funcs": [_fn("f", ["y"], [["x", ["i"]]], ["i"]), dict(_single("g", ["s"], ["y"]), ret=[2, 2])],
+              "inputs": [_arr("x", [2], "list")]})
     for r in R:
         r.setdefault("internal", [])
         r.setdefault("storage", "dict")
@@ -246,6 +260,102 @@ def _may_zip(c):
     return False
 
 
+def _rename_request(c, suf):
+    """A copy of the request with every array / function / parameter / internal-axis name suffixed (index names
+    i, j, k, m are kept: they are what two independent sub-pipelines may share)."""
+    def rn(n):
+        return n + suf
+
+    def rax(ax):
+        return [None if a is None else (a if a in mapgen.IDX else rn(a)) for a in ax]
+
+    out = {"funcs": [], "inputs": [], "internal": [[rn(k), list(v)] for k, v in (c.get("internal") or [])],
+           "storage": c.get("storage", "dict")}
+    for fd in c["funcs"]:
+        g = json.loads(json.dumps(fd))
+        g["name"] = rn(fd["name"])
+        g["outs"] = [rn(o) for o in fd["outs"]]
+        g["params"] = [rn(p_) for p_ in fd["params"]]
+        if fd.get("spec"):
+            g["spec"] = {"i": [[rn(a), rax(ax)] for a, ax in fd["spec"]["i"]],
+                         "o": [[rn(a), rax(ax)] for a, ax in fd["spec"]["o"]]}
+        g["bound"] = [[rn(k), v] for k, v in fd.get("bound") or []]
+        g["defaults"] = [[rn(k), v] for k, v in fd.get("defaults") or []]
+        out["funcs"].append(g)
+    for k, v in c["inputs"]:
+        if isinstance(v, dict):
+            out["inputs"].append([rn(k), {"sh": list(v["sh"]), "d": [rn(k) + "_" + str(t) for t in range(len(v["d"]))],
+                                          "as": v.get("as", "nd")}])
+        else:
+            out["inputs"].append([rn(k), v + suf])
+    return out
+
+
+def _two_pipelines(rng, storages):
+    """Two independent sub-pipelines in one Pipeline that share index names (possibly with different sizes)."""
+    while True:
+        a = mapgen.gen_request(rng, max_funcs=2, max_rank=2, storages=storages)
+        b = mapgen.gen_request(rng, max_funcs=2, max_rank=2, storages=storages)
+        if _in_scope(a) and _in_scope(b) and mapgen.request_size(a) + mapgen.request_size(b) <= 30:
+            break
+    b = _rename_request(b, "b")
+    return {"funcs": a["funcs"] + b["funcs"], "inputs": a["inputs"] + b["inputs"],
+            "internal": (a.get("internal") or []) + (b.get("internal") or []), "storage": a["storage"]}
+
+
+def _plain_arrays(c, rng):
+    """Let some functions without MapSpec return ndarrays (rank 1 or 2): 'plain array variables'."""
+    c = json.loads(json.dumps(c))
+    for fd in c["funcs"]:
+        if fd.get("spec") is None and rng.random() < 0.6:
+            fd["ret"] = [rng.randint(1, 3) for _ in range(rng.choice([1, 1, 2]))]
+    return c
+
+
+def _shapes(c):
+    """Shapes of all arrays of the request (root inputs and outputs), by propagation through the MapSpecs."""
+    sh = {k: list(v["sh"]) for k, v in c["inputs"] if isinstance(v, dict)}
+    user = {k: list(v) for k, v in (c.get("internal") or [])}
+    for fd in c["funcs"]:
+        sp = fd.get("spec")
+        if not sp:
+            continue
+        size = {}
+        for a, ax in sp["i"]:
+            for pos, nm in enumerate(ax):
+                if nm is not None and a in sh:
+                    size[nm] = sh[a][pos]
+        for o, ax in sp["o"]:
+            internal = list(user.get(o) or fd.get("int") or fd.get("ret") or [])
+            dims = []
+            for nm in ax:
+                if nm in size:
+                    dims.append(size[nm])
+                else:
+                    dims.append(internal.pop(0) if internal else -1)
+            sh[o] = dims
+    return sh
+
+
+def _axis_conflict(c):
+    """Is some index name used with two different sizes (by arrays that are never zipped together)?"""
+    sh = _shapes(c)
+    sizes = {}
+    for fd in c["funcs"]:
+        sp = fd.get("spec")
+        if not sp:
+            continue
+        for a, ax in sp["i"] + sp["o"]:
+            for pos, nm in enumerate(ax):
+                if nm is not None and a in sh and pos < len(sh[a]):
+                    sizes.setdefault(nm, set()).add(sh[a][pos])
+    return any(len(v) > 1 for v in sizes.values())
+
+
+def _plain_rank(c):
+    return max([len(fd.get("ret") or []) for fd in c["funcs"] if fd.get("spec") is None] + [0])
+
+
 def _cases_of(req, li):
     base = dict(req)
     base["li"] = bool(li)
@@ -261,12 +371,18 @@ def generate(rng, tier, mult):
     for r in corner_requests():
         for li in (True, False):
             out += _cases_of(r, li)
-    storages = ("dict", "file_array", "shared_memory_dict")
+    storages = ("dict", "dict", "dict", "file_array", "file_array", "shared_memory_dict")
     k = 0
     while k < n:
-        c = mapgen.gen_request(rng, max_rank=rng.choice([2, 3, 3]), storages=storages)
-        if not _in_scope(c):
-            continue
+        u = rng.random()
+        if u < 0.10:
+            c = _two_pipelines(rng, storages)
+        else:
+            c = mapgen.gen_request(rng, max_rank=rng.choice([2, 3, 3]), storages=storages)
+            if not _in_scope(c):
+                continue
+            if u < 0.25:
+                c = _plain_arrays(c, rng)
         out += _cases_of(c, rng.random() < 0.5)
         k += 1
     return out
@@ -290,11 +406,21 @@ def distribution(c):
     ranks = sorted({len(v["sh"]) for _, v in c["inputs"] if isinstance(v, dict)})
     return {"kind": c["kind"], "li": c["li"], "nfuncs": len(c["funcs"]), "funcs": "+".join(kinds),
             "storage": c.get("storage"), "input_ranks": "".join(map(str, ranks)), "may_zip": _may_zip(c),
-            "colon": any(a is None for f in c["funcs"] if f.get("spec") for _, ax in f["spec"]["i"] for a in ax)}
+            "colon": any(a is None for f in c["funcs"] if f.get("spec") for _, ax in f["spec"]["i"] for a in ax),
+            "axis_conflict": _axis_conflict(c), "plain_rank": _plain_rank(c)}
 
 
 def finding_id(c, impl_obs, kind):
-    """Known finding: .sel() by the value of a zipped coordinate raises inside xarray (kind 1 only)."""
+    """Known findings:
+    - an index name used with two different sizes: xr.merge raises AlignmentError (no dataset at all);
+    - a function without MapSpec returning an ndarray of rank >= 2: Dataset.__setitem__ raises MissingDimensionsError;
+    - .sel() by the value of a zipped coordinate raises inside xarray (kind 1 only)."""
+    if impl_obs == ["err", "OtherError"]:
+        if _axis_conflict(c):
+            return CONFLICT
+        if _plain_rank(c) >= 2:
+            return PLAIN
+        return None
     if int(c.get("kind", 0)) != 1 or not isinstance(impl_obs, list) or len(impl_obs) != 7 or impl_obs[0] != "ok":
         return None
     sels = impl_obs[6]
